@@ -89,7 +89,7 @@ func c05codec(c *Ctx, p *load.Program, pkgPath, prefix string) {
 			if !strings.HasSuffix(e.Field, ".serializeBody") {
 				undec = "Marshal appends the result of " + e.Field + ", not serializeBody"
 			}
-			for _, b := range layout.Extract(pk, bfd) {
+			for _, b := range writeEvents(p, pk, "VAA", "serializeBody") {
 				if b.Cond || b.Kind != "write" || b.Loop > 0 {
 					undec = "conditional, looped or unrecognised write in serializeBody: " + b.String()
 				}
